@@ -346,8 +346,10 @@ Proof. ep. Qed.
 
 (* ================================================================================================ *)
 (* 3. Entry points that DO write to a caller-owned argument on the current tree (expected refutations; *)
-(*    each is confirmed on the implementation by the dynamic check: findings F16a, F16b, F3)           *)
+(*    each is confirmed on the implementation by the dynamic check: findings F16a, F16b)           *)
 (* ================================================================================================ *)
+(* When one of these defects is repaired in the source, its `_refuted` theorem stops compiling (the verdict flips); the
+   repaired entry point then belongs in [pure_entries] above (with a C20_ep_ statement) and the refutation is deleted. *)
 (* F16a: bisect(f, xmin, xmax, tol, maxiter) overwrites both bracket arrays *)
 Theorem C20_bisect_refuted :
   explicit_verdict gen_table FUEL eff_optimize_bisect arity_optimize_bisect = [false; true; true; false; false] /\
@@ -409,19 +411,20 @@ Theorem C20_compare_3d_partial :
     firstn 2 (snd (exec_fun o gen_table fe eff_visualization_compare_3d actuals)) = firstn 2 actuals.
 Proof. intros o fe actuals H. apply (exec_fun_pure_prefix gen_table FUEL fe _ o actuals 2); side. Qed.
 
-(* F3: Tree.fit(index, n_nodes, tau_matrix, previous_tree, edges) writes into the tau matrix it is handed
-   (_sort_tau_by_y: tau_y = self.tau_matrix[:, y]; tau_y[y] = nan   and   DirectTree: tau_matrix[:, [T1]] = -10).
+(* F3 (repaired in the source by `self.tau_matrix = np.array(tau_matrix)`): Tree.fit(index, n_nodes, tau_matrix,
+   previous_tree, edges) used to write into the tau matrix it is handed (_sort_tau_by_y: tau_y = self.tau_matrix[:, y];
+   tau_y[y] = nan   and   DirectTree: tau_matrix[:, [T1]] = -10).  With the defensive copy the matrix is untouched.
    The flag on `edges` is an over-approximation of the path-insensitive analysis (`self.edges = edges or []` followed by
    appends that only run when that list is empty, i.e. when it is the fresh []); the dynamic check observes no write. *)
-Theorem C20_tree_fit_refuted :
-  explicit_verdict gen_table FUEL eff_multivariate_tree_Tree_fit arity_multivariate_tree_Tree_fit = [false; false; true; false; true] /\
-  content (snd (exec_fun all_view gen_table FUEL eff_multivariate_tree_Tree_fit (unit_store 5))) 2 <> content (unit_store 5) 2.
-Proof. split; [ep | apply mutated_true; ep]. Qed.
-Theorem C20_tree_fit_partial :
+Theorem C20_tree_fit :
+  explicit_verdict gen_table FUEL eff_multivariate_tree_Tree_fit arity_multivariate_tree_Tree_fit = [false; false; false; false; true].
+Proof. ep. Qed.
+Theorem C20_tree_fit_args_unchanged :
   forall (o : oracle) fe (actuals : store), 5 <= length actuals ->
-    content (snd (exec_fun o gen_table fe eff_multivariate_tree_Tree_fit actuals)) 3 = content actuals 3.
-Proof. intros o fe actuals H. apply (exec_fun_arg_unchanged gen_table FUEL fe _ o actuals 5 3); side. Qed.
-(* the helpers: the write goes through self.tau_matrix (first implicit parameter of each) *)
+    firstn 4 (snd (exec_fun o gen_table fe eff_multivariate_tree_Tree_fit actuals)) = firstn 4 actuals.
+Proof. intros o fe actuals H. apply (exec_fun_pure_prefix gen_table FUEL fe _ o actuals 4); side. Qed.
+(* the helpers still write through self.tau_matrix (first implicit parameter of each) -- which is now Tree.fit's own copy;
+   removing the copy in Tree.fit re-connects these writes to the caller's matrix and breaks C20_tree_fit *)
 Theorem C20_sort_tau_by_y_writes_tau_matrix :
   writes_fun gen_table FUEL eff_multivariate_tree_Tree__sort_tau_by_y = [false; true].
 Proof. ep. Qed.
@@ -434,10 +437,14 @@ Proof. ep. Qed.
 Theorem C20_regular_first_tree_keeps_tau_matrix :
   nth 0 (writes_fun gen_table FUEL eff_multivariate_tree_RegularTree__build_first_tree) true = false.
 Proof. ep. Qed.
-(* VineCopula.fit(X) itself never writes X -- but it hands its OWN tau matrix (X.corr().to_numpy(), read-only under
-   pandas 3) to Tree.fit, which writes into it: the model-state attribute tau_mat is flagged in train_vine *)
-Theorem C20_train_vine_writes_own_tau_mat :
-  writes_fun gen_table FUEL eff_multivariate_vine_VineCopula_train_vine = [false; true; true; true].
+(* the writes of the helpers are real in the model: running _sort_tau_by_y changes the matrix self.tau_matrix points to *)
+Theorem C20_sort_tau_by_y_runs :
+  content (snd (exec_fun all_view gen_table FUEL eff_multivariate_tree_Tree__sort_tau_by_y (unit_store 2))) 1 <> content (unit_store 2) 1.
+Proof. apply mutated_true; ep. Qed.
+(* VineCopula.fit(X) never writes X, and train_vine no longer writes the model's own tau matrix (parameter 1 = self.tau_mat,
+   which is X.corr().to_numpy(): read-only under pandas 3, so the write used to raise for centre and direct vines) *)
+Theorem C20_train_vine_keeps_tau_mat :
+  firstn 2 (writes_fun gen_table FUEL eff_multivariate_vine_VineCopula_train_vine) = [false; false].
 Proof. ep. Qed.
 
 (* the call graph of the generated table is within the analysis fuel: with less fuel nothing changes *)
@@ -523,6 +530,6 @@ Print Assumptions C20_analysis_sound.
 Print Assumptions C20_args_unchanged.
 Print Assumptions C20_entrypoints.
 Print Assumptions C20_bisect_refuted.
-Print Assumptions C20_tree_fit_refuted.
+Print Assumptions C20_tree_fit_args_unchanged.
 Print Assumptions C20_plot_rows.
 Print Assumptions C20_second_call_fails.
